@@ -95,6 +95,11 @@ type Shape struct {
 	// sliced out of a received buffer. A library write into the spare capacity
 	// of any of them lands in its neighbours and shows in the serialisation.
 	Shared bool `json:"shared,omitempty"`
+	// OneObject: equal values are ONE object - inputs spending the same script
+	// point to one *bscript.Script (a wallet keeping one script object per
+	// address), equal output scripts likewise, equal previous tx ids are one
+	// byte slice (several outputs of one transaction).
+	OneObject bool `json:"one_object_per_value,omitempty"`
 }
 
 // Ambiguous reports the one shape excluded by the properties: no inputs, no
@@ -130,11 +135,31 @@ func (s *Shape) Build() *bt.Tx {
 		}
 		defer func() { arena = append(arena, "ARENA-TAIL-GUARD"...) }()
 	}
+	scripts := map[string]*bscript.Script{}
+	script := func(b []byte) *bscript.Script {
+		if !s.OneObject {
+			return bscript.NewFromBytes(carve(b))
+		}
+		if o, ok := scripts[string(b)]; ok {
+			return o
+		}
+		o := bscript.NewFromBytes(carve(b))
+		scripts[string(b)] = o
+		return o
+	}
+	ids := map[string][]byte{}
 	for i := range s.Ins {
 		in := &s.Ins[i]
 		bi := &bt.Input{PreviousTxOutIndex: in.Vout, SequenceNumber: in.Seq, PreviousTxSatoshis: in.PrevSats}
 		id := make([]byte, len(in.TxID))
 		copy(id, in.TxID)
+		if s.OneObject {
+			if o, ok := ids[string(id)]; ok {
+				id = o
+			} else {
+				ids[string(id)] = id
+			}
+		}
 		_ = bi.PreviousTxIDAdd(id)
 		if in.ViaJSON {
 			js, _ := json.Marshal(map[string]any{"txid": hex.EncodeToString(in.TxID), "vout": in.Vout, "sequence": in.Seq, "unlockingScript": hex.EncodeToString(in.Unlock)})
@@ -150,13 +175,13 @@ func (s *Shape) Build() *bt.Tx {
 			bi.UnlockingScript = bscript.NewFromBytes(carve(in.Unlock))
 		}
 		if !in.PrevScriptNil {
-			bi.PreviousTxScript = bscript.NewFromBytes(carve(in.PrevScript))
+			bi.PreviousTxScript = script(in.PrevScript)
 		}
 		tx.Inputs = append(tx.Inputs, bi)
 	}
 	for i := range s.Outs {
 		o := &s.Outs[i]
-		tx.Outputs = append(tx.Outputs, &bt.Output{Satoshis: o.Sats, LockingScript: bscript.NewFromBytes(carve(o.Script))})
+		tx.Outputs = append(tx.Outputs, &bt.Output{Satoshis: o.Sats, LockingScript: script(o.Script)})
 	}
 	return tx
 }
